@@ -13,7 +13,7 @@ ACTIONS = ["Init", "Bump", "Shift", "Swap"]
 # read by bin/mkmanifest
 META = {
     "category": "model_checking",
-    "text": "TLC checks the four RFC 1982 laws (a+n > a for n in 1..2^(k-1)-1, antisymmetry, undefined exactly at distance 2^(k-1), shift invariance) and the equality of the transcribed partial_cmp/add with the RFC text for all pairs and all addends at 8 bits (9 and 11 bits thorough); every one of these k-bit evaluations is lifted to 32 bits by the exact embedding x*2^(32-k)+c and executed on Serial, Timestamp, SOA/RRSIG wire round trips, sign_rrset's validity check and new::base::Serial; recorded library runs on dense 32-bit operands (boundary distances 2^31+-2, neighbourhoods of 0 and 2^32-1, panicking addends) are validated by TLC through a 16-bit-limb model that TLC proves equal to the integer model at small widths.",
+    "text": "TLC checks the four RFC 1982 laws (a+n > a for n in 1..2^(k-1)-1, antisymmetry, undefined exactly at distance 2^(k-1), shift invariance) and the equality of the transcribed partial_cmp/add with the RFC text for all pairs and all addends at 8 bits (9 and 11 bits thorough); every one of these k-bit evaluations is lifted to 32 bits by the exact embedding x*2^(32-k)+c (several offsets c, for ordered pairs also different offsets per side, which reaches the distances 2^31-1 and 2^31+1) and executed on Serial (partial_cmp, the five operators, add), Timestamp, SOA/RRSIG wire round trips, sign_rrset's validity-period check, the zone diff builder's serial-range check and new::base::Serial; recorded library runs on dense 32-bit operands (boundary distances 2^31+-2, neighbourhoods of 0 and 2^32-1, panicking addends, the zone store's SOA serial bump on commit) are validated by TLC through a 16-bit-limb model that TLC proves equal to the integer model at small widths.",
     "note": "Trusted: TLC, the transcription of RFC 1982 in Serial.tla, the uniformity in the limb base of SerialLimbs.tla (equivalence is TLC-checked at limb widths 4/5, used at 16), the harness. zonetree's Version type is private and the IXFR `query_serial >= soa.serial()` decision in the XFR middleware is not driven; both delegate to Serial::partial_cmp. Dense 2^64 coverage is sampled by traces; the full sweep of all 2^32 differences uses a Rust reference that the same TLC runs bind to the spec and is reported separately as an extension, as is the optional Apalache run for BITS=32.",
     "technique": "TLA+ spec (Serial.tla, SerialLimbs.tla) + TLC exhaustive; spec->impl replay through scaled embedding; impl->spec limb-encoded trace validation; reference sweep and Apalache as extensions",
     "design_ref": "DESIGN.md §4 C17",
